@@ -195,6 +195,14 @@ fn unary(v: u64) -> Vec<Divergence> {
     if singles != b {
         d.push(Divergence::new("collect-from-boards-wrong", format!("{v:#018x}")));
     }
+    // whole boards as elements: the board alone, padded with empty boards, with its complement
+    let alone: BitBoard = std::iter::once(b).collect();
+    let padded: BitBoard = [BitBoard::empty(), b, BitBoard::empty(), b].into_iter().collect();
+    let with_complement: BitBoard = [b, BitBoard::from_u64(!v)].into_iter().collect();
+    let halves: BitBoard = [BitBoard::from_u64(v & 0x0f0f_0f0f_0f0f_0f0f), BitBoard::from_u64(v & 0xf0f0_f0f0_f0f0_f0f0)].into_iter().collect();
+    if alone != b || padded != b || with_complement.to_u64() != u64::MAX || halves != b {
+        d.push(Divergence::new("collect-from-boards-wrong", format!("{v:#018x}: whole boards as elements: alone {:#018x}, padded {:#018x}, with complement {:#018x}, halves {:#018x}", alone.to_u64(), padded.to_u64(), with_complement.to_u64(), halves.to_u64())));
+    }
     d
 }
 
